@@ -20,7 +20,7 @@ import networkx as nx
 from rc import graphs, oracles as O
 from rc.common import mkgraph, is_route, explained, close, traversals
 
-SCALES = ("2", "1/2", "1/10")
+SCALES = ("2", "5/2", "1/2", "1/10")
 OPTION_SETS = (
     {"optimize_with_safe_sequences": False},
     {"optimize_with_safe_sequences": False, "optimize_with_safety_as_subset_constraints": True},
@@ -164,6 +164,13 @@ def cases(tier):
     # witness of D17 (DESIGN section 4): flows 1,2,1,1 decompose into one walk; scaled by 1/2 or 1/10 the model is reported unsolved
     yield dict(kind="scale", edges=[("x", "y", 1), ("y", "z", 2), ("z", "y", 1), ("z", "w", 1)], scales=list(SCALES), opts={})
     yield dict(kind="min", edges=[("x", "y", 1), ("y", "z", 2), ("z", "y", 1), ("z", "w", 1)], wt="int", cons=[], cov=1.0, opts={})
+    # a closed safe sequence (a 5-cycle entered twice and left twice at one node): backward and forward reachability queries hit the same node
+    yield dict(kind="min", edges=[("r", "a", 1), ("s", "a", 1), ("a", "b", 3), ("b", "c", 3), ("c", "d", 3), ("d", "e", 3), ("e", "a", 3), ("a", "t", 1), ("a", "z", 1)],
+               wt="int", cons=[], cov=1.0, opts={})
+    # one walk whose weight equals the largest flow value, odd: under the factor 5/2 the largest value is not an integer (bounds derived from it must not be truncated)
+    for w in (1, 3):
+        yield dict(kind="scale", edges=[("x", "y", w), ("y", "z", w), ("z", "y", w), ("y", "w", w)], scales=list(SCALES), opts={})
+        yield dict(kind="scale", edges=[("x", "y", w), ("y", "z", 2 * w), ("z", "y", w), ("z", "w", w), ("x", "v", 2 * w + 1), ("v", "w", 2 * w + 1)], scales=list(SCALES), opts={})
 
 
 # ------------------------------------------------------------------------------------------------ oracle
@@ -328,7 +335,7 @@ def check(case):
         r = _run(H, float, [], 1.0, case["opts"])
         if not r["solved"]:
             return dict(ok=False, nontrivial=True,
-                        fingerprint="scaling all flows by a common positive factor (float weights) changes solvability of MinFlowDecompCycles (repetition cap taken from the flow value)",
+                        fingerprint="scaling all flows by a common positive factor (float weights) changes solvability of MinFlowDecompCycles" + _why(c),
                         what="factor 1: solved with %d walks %s; factor %s: solve() failed (%s); %s" % (len(base["walks"]), base["walks"], sc, r.get("error", "returned False"), inst),
                         detail=dict(base=base, factor=sc))
         bad = _valid(H, sflow, r, float, [], 1.0)
@@ -336,10 +343,16 @@ def check(case):
             return dict(ok=False, nontrivial=True, fingerprint=bad[0], what="factor %s: %s | %s" % (sc, bad[1], inst), detail=r)
         if len(r["walks"]) != len(base["walks"]):
             return dict(ok=False, nontrivial=True,
-                        fingerprint="scaling all flows by a common positive factor (float weights) changes the number of walks of MinFlowDecompCycles (repetition cap taken from the flow value)",
+                        fingerprint="scaling all flows by a common positive factor (float weights) changes the number of walks of MinFlowDecompCycles" + _why(c),
                         what="factor 1: %d walks %s %s; factor %s: %d walks %s %s; %s" % (len(base["walks"]), base["walks"], base["weights"], sc, len(r["walks"]), r["walks"], r["weights"], inst),
                         detail=dict(base=base, scaled=r, factor=sc))
     return dict(ok=True, nontrivial=True, detail=dict(k=len(base["walks"])))
+
+
+def _why(c):
+    """the known defect D17 (edge repetitions capped by flow values) can only bite when the values shrink: a failure under a factor >= 1 is a
+    different violation and gets a different fingerprint (which must not contain the known finding's key phrase)"""
+    return " (repetition cap taken from the flow value)" if c < 1 else " - under a factor >= 1 (values only grow: not the known flow-value limit on edge repetitions)"
 
 
 def run(tier="quick", seed=0, chunk=0, nchunks=1):
@@ -348,6 +361,6 @@ def run(tier="quick", seed=0, chunk=0, nchunks=1):
                      rule="all cyclic digraphs on 3 named nodes + all cyclic digraphs with one source, one sink and two inner nodes (quick: <=8 edges) + 6 multi-source/sink graphs%s, "
                           "every edge on a source-to-sink walk; x %s positive integer flows per graph (superpositions of <=3 walks, cycle multiplicity <=2, weights <=3); "
                           "int weights vs exact enumeration oracle (with 0-2 subset-constraint lists, coverage 1 and 0.5, and 8 option sets on a sample); "
-                          "float weights under factors 2, 1/2, 1/10; second naming scheme on a sample; non-trivial = library solved and compared, or a failure"
+                          "float weights under factors 2, 5/2, 1/2, 1/10; second naming scheme on a sample; non-trivial = library solved and compared, or a failure"
                           % ("" if tier == "quick" else " + every 23rd cyclic digraph on 4 named nodes with <=8 edges", "3" if tier == "quick" else "6"),
                      bounds="<=4 nodes (5 in the multi-source family), <=%d edges, flows from <=3 walks with weights <=3; oracle decompositions of <=7 walks" % (8 if tier == "quick" else 9))
